@@ -26,7 +26,10 @@ Step ==
         LET o == [s2i |-> e.s2i, nob64 |-> e.nob64, disallow |-> e.disallow, wreq |-> e.wreq, wdef |-> e.wdef, wopt |-> e.wopt,
                   optbm |-> e.optbm, usedflt |-> e.usedflt]
             exp == J2TV(e.d, desc.from, desc.structs, o)
-            feat == IF e.variant = "b64-escaped" THEN "b64-escaped" ELSE IF HasNegZeroIntLit(e.d) THEN "negzero-int-literal" ELSE ""
+            optDefault == e.optbm /\ ~e.wopt /\ \E n \in DOMAIN desc.structs : \E k \in 1..Len(desc.structs[n]) :
+                                                       desc.structs[n][k].req = "opt" /\ desc.structs[n][k].hasd
+            feat == IF e.variant = "b64-escaped" THEN "b64-escaped" ELSE IF HasNegZeroIntLit(e.d) THEN "negzero-int-literal"
+                    ELSE IF optDefault THEN "optional-with-default-without-WriteOptionalField" ELSE ""
         IN
         /\ \A j \in 1..Len(e.res) :
              LET r == e.res[j]
